@@ -32,6 +32,28 @@ getcontext().prec = 60
 BudgetError = dp.utils.BudgetError
 
 
+SIG_UNDERFLOW = "C04:over-ceiling-exact:epsilon-squared-underflow"
+
+
+def _witness_underflow(ctx):
+    acc = dp.BudgetAccountant(1e-170, 0.5, slack=0.1)
+    n = 0
+    try:
+        for _ in range(50):
+            acc.spend(5e-171, 0)
+            n += 1
+    except Exception:  # noqa
+        pass
+    exact = sum(Fraction(float(e)) for e, _ in acc.spent_budget)
+    fails = exact > Fraction(1e-170) * (1 + Fraction(1, 10 ** 12))
+    return fails, (f"BudgetAccountant(1e-170, 0.5, slack=0.1): {n} spends of (5e-171, 0) accepted, total() reports epsilon = "
+                   f"{float(acc.total()[0])!r} while the exact sum of the recorded epsilons is {float(exact)!r} > the ceiling "
+                   f"(epsilon**2 underflows for epsilon < ~1e-162, so the DRV/KOV terms evaluate to 0)")
+
+
+WITNESSES = {SIG_UNDERFLOW: _witness_underflow}
+
+
 def kind_of(exc):
     if exc is None:
         return "ok"
@@ -224,7 +246,12 @@ def run_impl(seq, ctx=None, direct=True):
         ee, dd = exact_total(acc.spent_budget, acc.slack)
         if not math.isinf(acc.epsilon):
             if ee > Fraction(acc.epsilon) * (1 + Fraction(1, 10 ** 12)):
-                return ("C04:over-ceiling-exact", f"exact epsilon total {float(ee)!r} > ceiling {acc.epsilon}*(1+1e-12) after {where}")
+                sig = "C04:over-ceiling-exact"
+                if acc.slack > 0 and all(float(e) < 1e-150 for e, _ in acc.spent_budget):
+                    # open known finding: with slack > 0 and every epsilon below ~1e-162 the squares underflow, the
+                    # advanced-composition terms come out as 0 and the ceiling is not enforced (SIG_UNDERFLOW)
+                    sig = SIG_UNDERFLOW
+                return (sig, f"exact epsilon total {float(ee)!r} > ceiling {acc.epsilon}*(1+1e-12) after {where}")
         if dd > Fraction(acc.delta) * (1 + Fraction(1, 10 ** 12)) + Fraction(1, 10 ** 30):
             return ("C04:over-ceiling-exact", f"exact delta total {float(dd)!r} > ceiling {acc.delta}*(1+1e-12) after {where}")
         return None
@@ -390,6 +417,7 @@ def compare(ctx, seq, recs, outs):
 
 
 FIXED_SEQS = [
+    (1e-170, 0.5, 0.1, [], [("spend", 5e-171, 0.0)] * 6 + [("total",)]),          # open known finding SIG_UNDERFLOW
     (1.0, 1e-20, 0.0, [], [("spend", 0.1, 1e-17), ("total",), ("spend", 0.1, 1e-21)] + [("spend", 0.01, 2e-21)] * 6),
     (1.0, 1e-15, 0.0, [], [("spend", 0.001, 1e-16)] * 12 + [("remaining", 2)]),
     (1.0, 2.0 ** -64, 0.0, [], [("spend", 0.0, 2.0 ** -66)] * 6 + [("rebuild",)]),
